@@ -271,7 +271,7 @@ pub fn judge_c26(sc: &Scenario) -> (Judged, RunResult) {
             )
         }
     };
-    wirm::verif::set_hash_seed(sc.hash_seed);
+    crate::hseam::set_hash_seed(sc.hash_seed);
     let comp_bytes = plan.to_bytes();
     let order = plan.module_order();
     let mod_bytes: Vec<Vec<u8>> = order.iter().map(|i| plan.modules[*i as usize].to_bytes()).collect();
@@ -371,7 +371,7 @@ pub fn judge_c26(sc: &Scenario) -> (Judged, RunResult) {
     let any_visit = !twin_traj.is_empty();
     let r = guarded(|| {
         let mut traj: Vec<CVisit> = vec![];
-        let mut sm = wirm::verif::HashMap::new();
+        let mut sm = crate::hseam::LibMap::new();
         for (k, v) in skip_map.iter() {
             sm.insert(*k, v.clone());
         }
